@@ -222,7 +222,7 @@ class Formatter(FormatterInterface):
     @__call__.register
     def _(self, c: L.Comment) -> str:
         """Format a comment."""
-        return f"// {c.comment}\n"
+        return "".join(f"// {line}\n" for line in c.comment.split("\n"))
 
     @__call__.register
     def _(self, arr: L.ArrayDecl) -> str:
